@@ -657,6 +657,56 @@ func cmdLang(args []string) {
 			}
 		}
 	}
+	// vectors of extreme length: every metric takes one of its LONGEST (or shortest) value codes at once -- a buffer or
+	// length bound derived from "typical" codes shows only there.  All combinations of the longest codes, capped.
+	{
+		pick := func(ncodes int, code func(c int) string, longest bool) []int {
+			best := -1
+			for c := 0; c < ncodes; c++ {
+				l := len(code(c))
+				if best < 0 || (longest && l > best) || (!longest && l < best) {
+					best = l
+				}
+			}
+			var out []int
+			for c := 0; c < ncodes; c++ {
+				if len(code(c)) == best {
+					out = append(out, c)
+				}
+			}
+			return out
+		}
+		for _, longest := range []bool{true, false} {
+			if *fam == "v2" {
+				choices := make([][]int, v2N)
+				for i := 0; i < v2N; i++ {
+					i := i
+					choices[i] = pick(len(v2Defs[i].Codes), func(c int) string { return v2Defs[i].Codes[c].Code }, longest)
+				}
+				for count := 0; count < 300; count++ {
+					var v v2Vec
+					for i := 0; i < v2N; i++ {
+						v[i] = uint8(choices[i][rng.Intn(len(choices[i]))])
+					}
+					inputs = append(inputs, v2String(&v, true, true), v2String(&v, true, false), v2String(&v, false, true), v2String(&v, false, false))
+				}
+			} else {
+				choices := make([][]int, v3N)
+				for i := 0; i < v3N; i++ {
+					i := i
+					choices[i] = pick(len(v3Defs[i].Codes), func(c int) string { return v3Defs[i].Codes[c].Code }, longest)
+				}
+				for count := 0; count < 100; count++ {
+					var v v3Vec
+					for i := 0; i < v3N; i++ {
+						v[i] = uint8(choices[i][rng.Intn(len(choices[i]))])
+					}
+					ver := v3Versions[count%2].Label
+					inputs = append(inputs, v3Join(ver, v3Tokens(&v, 22, 0)), v3Join(ver, v3Tokens(&v, 11, 0)), v3Join(ver, v3Tokens(&v, 8, 0)))
+				}
+			}
+		}
+	}
 	// ordered pairs of single-token defects: defect kind d1 in an earlier token, d2 in a later one
 	{
 		bases := map[string][]string{
